@@ -33,13 +33,42 @@ def main():
     status = "ok"
     err = None
     try:
-        if spec.get("replay"):
-            mod.replay(ctx, spec["replay"])
+        rp = spec.get("replay")
+        if rp and isinstance(rp, dict) and rp.get("kind") == "rerun-shard":
+            ctx.shard, ctx.nshards = int(rp["shard"]), int(rp["nshards"])
+            ctx.tier = rp.get("tier", ctx.tier)
+            mod.run(ctx)
+        elif rp:
+            mod.replay(ctx, rp)
         else:
             mod.run(ctx)
-    except BaseException as e:  # the harness itself failed: inconclusive
-        status = "harness-error"
+    except BaseException as e:
         err = "".join(traceback.format_exception(type(e), e, e.__traceback__))[-6000:]
+        # An exception that escapes from the code under test on an input of the
+        # property's domain means the promised result was not delivered: that is a
+        # violation (generic safety net). An exception raised by the harness itself
+        # is a harness error (inconclusive).
+        repo_src = os.path.realpath(os.path.join(os.environ.get("VERIF_REPO", "/repo"),
+                                                 "src"))
+        frames = traceback.extract_tb(e.__traceback__)
+        inner = frames[-1] if frames else None
+        where = None
+        for fr in reversed(frames):
+            if os.path.realpath(fr.filename).startswith(repo_src):
+                where = fr
+                break
+        from_repo = where is not None and inner is not None and (
+            os.path.realpath(inner.filename).startswith(repo_src) or
+            "site-packages" in inner.filename or inner.filename.startswith("<"))
+        if from_repo and not isinstance(e, (KeyboardInterrupt, MemoryError)):
+            key = (f"unexpected-exception|{os.path.basename(where.filename)}:"
+                   f"{where.name}|{type(e).__name__}")
+            ctx.violate(key, "no-exception-on-valid-input",
+                        {"kind": "rerun-shard", "shard": ctx.shard,
+                         "nshards": ctx.nshards, "tier": ctx.tier},
+                        {"exception": repr(e)[:500], "traceback": err[-2500:]})
+        else:
+            status = "harness-error"
     res = ctx.result()
     res["status"] = status
     res["error"] = err
